@@ -184,9 +184,14 @@ _LONG = 700
 _JUNK = "{0} %s \\ \" ' \n\t\x00 \u00e9 \U0001F680 \ud83d [*]?"      # format characters, quotes, NUL, an emoji, a LONE surrogate, glob characters
 
 
+_QUOTE = 'FollowMobilityPlugin__leader:{"id": 7, "position": [1, 2, 3]}'
+
+
 def _payload(m):
     """the text of message m: its number; (long_payloads) padded with zeros to _LONG characters; (odd_payloads) followed
     by a bar and characters that mean something to formatters, encoders and parsers -- a payload is opaque text"""
+    if CTX.scenario.get("quote_plugin"):
+        return "%s|%s" % (m, _QUOTE)       # an ordinary message that quotes a packet of the follow-mobility plugins
     if CTX.scenario.get("odd_payloads"):
         return "%s|%s" % (m, _JUNK)
     return str(m).zfill(_LONG) if CTX.scenario.get("long_payloads") else str(m)
@@ -243,7 +248,14 @@ class TimerNames(str, enum.Enum):
 _ENUM_NAMES = list(TimerNames)
 
 
+_TAG_NAMES = ["timer", "FollowMobilityPlugin__leader_broadcast_timer/watchdog", "broadcast", "FollowMobilityPlugin__follower_timer.x",
+              "leader", "", "_", "FollowMobilityPlugin__leader"]
+
+
 def _tname(i):
+    if CTX.scenario.get("tag_names"):
+        # names made of pieces of (or beginning with) the timer tags of the library's follow-mobility plugins
+        return _TAG_NAMES[i] if i < len(_TAG_NAMES) else "n%d#" % i
     if CTX.scenario.get("enum_names"):
         return _ENUM_NAMES[i] if i < len(_ENUM_NAMES) else "n%d#" % i
     if CTX.scenario.get("odd_names"):
@@ -252,6 +264,12 @@ def _tname(i):
 
 
 def _tnum(name):
+    if CTX.scenario.get("tag_names"):
+        name = str(name)
+        if name in _TAG_NAMES:
+            return _TAG_NAMES.index(name)
+        m = re.fullmatch(r"n(\d+)#", name)
+        return int(m.group(1)) if m else -1
     if CTX.scenario.get("enum_names"):
         # what comes back must BE the name that was set: the member itself (or at least something equal to it)
         for i, m in enumerate(_ENUM_NAMES):
@@ -424,6 +442,11 @@ class ScriptedProtocol(IProtocol):
             raise AssertionError(a)
 
     def initialize(self):
+        host = CTX.scenario.get("host_plugin")
+        if host:
+            # the protocol hosts one of the library's follow-mobility plugins, which runs timers of its own
+            from gradysim.protocol.plugin.follow_mobility import MobilityLeaderPlugin, MobilityFollowerPlugin
+            self._hosted = (MobilityLeaderPlugin if host == "leader" else MobilityFollowerPlugin)(self)
         self._fire("init", None, "init")
 
     def handle_timer(self, timer):
@@ -431,9 +454,9 @@ class ScriptedProtocol(IProtocol):
         self._fire("timer", n, "timer %s" % (n if n >= 0 else "corrupt:" + repr(timer)))
 
     def handle_packet(self, message):
-        if CTX.scenario.get("odd_payloads") and isinstance(message, str) and "|" in message:
+        if (CTX.scenario.get("odd_payloads") or CTX.scenario.get("quote_plugin")) and isinstance(message, str) and "|" in message:
             head, rest = message.split("|", 1)
-            message = head if rest == _JUNK else "altered:" + message
+            message = head if rest == (_QUOTE if CTX.scenario.get("quote_plugin") else _JUNK) else "altered:" + message
         n = int(message) if re.fullmatch(r"\d+", str(message)) else -1
         if n >= 0 and CTX.scenario.get("long_payloads") and not CTX.scenario.get("odd_payloads") and len(str(message)) != _LONG:
             n = -1            # what arrives is not what was sent
@@ -492,18 +515,30 @@ def _interloper():
     CTX.sim = keep[0]
 
 
-class ProtoA(ScriptedProtocol):
+class CommunicationAgentProtocol(ScriptedProtocol):
+    """(the three scripted protocol classes are named like pieces of the library: labels, contexts and log lines are built
+    from class names, and nothing may depend on what a user's class is called)"""
     pass
 
 
-class ProtoB(ScriptedProtocol):
-    """instances are falsy: a protocol that exposes its (empty) buffer through len() is a protocol all the same"""
+ProtoA = CommunicationAgentProtocol
+
+
+class VisualizationRelayProtocol(ScriptedProtocol):
+    """instances are falsy: a protocol that exposes its (empty) buffer through len() is a protocol all the same; and the
+    class is called like a piece of the library (labels and contexts are built from class names)"""
     def __len__(self):
         return 0
 
 
-class ProtoA2(ProtoA):
+ProtoB = VisualizationRelayProtocol
+
+
+class MobilityAwareProtocol(ProtoA):
     pass
+
+
+ProtoA2 = MobilityAwareProtocol
 
 
 PROTO = {0: ProtoA, 1: ProtoB, 2: ProtoA2}
@@ -588,16 +623,19 @@ _ASSERTIONS = {}
 def make_assertion(idx, spec):
     """one decorated assertion object per (position, kind, argument), used by every simulation of the process
     that asks for it -- as a module-level decorated function is"""
-    key = (idx, tuple(spec))
+    names = (CTX.scenario or {}).get("assert_names")
+    key = (idx, tuple(spec), names[idx] if names else None)
     if key not in _ASSERTIONS:
-        _ASSERTIONS[key] = _make_assertion(idx, spec)
+        _ASSERTIONS[key] = _make_assertion(idx, spec, names[idx] if names else None)
     return _ASSERTIONS[key]
 
 
-def _make_assertion(idx, spec):
+def _make_assertion(idx, spec, given=None):
     kind, arg = spec
     # a label is free text: every second one carries characters that mean something to str.format / % / logging
     name = "a%d" % idx if idx % 2 == 0 else ("a%d" % idx) + " {IDLE, BUSY} {} %s %d {0}"
+    if given is not None:
+        name = given
     if kind == "AP":
         return assert_always_true_for_protocol(PROTO[arg], name)(lambda node: _truthy(_flag(node), idx))
     if kind == "EP":
@@ -876,7 +914,7 @@ def sim_to_text(sid, sc, stream, fuel=80000, show_exec=False):
         p.append("%s %s" % (k, arg))
     p.append("RNG %d %s" % (len(stream), " ".join(fhex(u) for u in stream)))
     p.append("DUR %s" % ("none" if sc["dur"] is None else "some " + fhex(sc["dur"])))
-    p.append("MAXIT %s" % ("none" if sc["maxit"] is None else "some %d" % sc["maxit"]))
+    p.append("MAXIT %s" % ("none" if sc["maxit"] is None else "some %d" % max(0, sc["maxit"])))     # a negative limit allows no event, like 0
     if sc["drv"][0] == "run":
         p.append("DRV run %d" % fuel)
     elif sc["drv"][0] == "runrun":
